@@ -553,6 +553,12 @@ def seq_reject(lib, p11drv, seed, idx):
             target = rng.choice(objs)
             theblob = blob
             relogin = False
+            pubtmpl = list(tmpl)         # C_GenerateKeyPair: the defect may sit in the private-key template only (the public key
+                                         # object then exists already when the call is refused)
+            pairmech, pairparams = rng.choice([('0x1040', '0x180=x:06082a8648ce3d030107'), ('0x1040', '0x180=x:06082a8648ce3d030107'),
+                                               ('0x0', '0x121=u:1024 0x122=x:010001'), ('0x1055', '0x180=x:06032b6570')])
+            if kind == 'genpair':
+                mech = pairmech
             if defect == 'badattr' and kind != 'destroy':
                 tmpl.insert(rng.randint(0, len(tmpl)), rng.choice(BAD_ATTRS))
             elif defect == 'missing' and kind in ('create', 'genkey', 'derive', 'genpair'):
@@ -568,7 +574,7 @@ def seq_reject(lib, p11drv, seed, idx):
                 relogin = True
                 tmpl = [t if not t.startswith('2=') else '2=b:1' for t in tmpl]
             elif defect == 'mech' and mech:
-                mech = {'genkey': '0x1080:x:0102', 'genpair': '0x1040:x:01', 'unwrap': rng.choice(['0x2109:x:00', '0x1085']), 'derive': rng.choice(['0x1104:sd:0102', '0x1104', '0x1105:sd:00'])}[kind]
+                mech = {'genkey': '0x1080:x:0102', 'genpair': pairmech + ':x:01', 'unwrap': rng.choice(['0x2109:x:00', '0x1085']), 'derive': rng.choice(['0x1104:sd:0102', '0x1104', '0x1105:sd:00'])}[kind]
             elif defect == 'blob' and kind == 'unwrap':
                 theblob = rng.choice([blob[:-2], blob[:16], 'ff' + blob[2:], blob + '00', '.'])
             elif defect == 'stalehandle':
@@ -582,7 +588,8 @@ def seq_reject(lib, p11drv, seed, idx):
             pre_f = raw_objects(p.tokendir())
             w = wk if defect != 'stalehandle' else target
             line = {'create': 'create %s %s' % (sess, ' '.join(tmpl)), 'genkey': 'genkey %s %s %s' % (sess, mech, ' '.join(tmpl)),
-                    'genpair': 'genpair %s %s %s %s -- %s' % (sess, mech, '' if defect == 'missing' else '0x180=x:06082a8648ce3d030107', ' '.join(tmpl), ' '.join(tmpl)),
+                    'genpair': 'genpair %s %s %s %s -- %s' % (sess, mech, '' if defect == 'missing' else pairparams,
+                                                              ' '.join(pubtmpl if (defect == 'badattr' and rng.random() < 0.6) else tmpl), ' '.join(tmpl)),
                     'unwrap': 'unwrap %s %s %s %s %s' % (sess, mech, w, theblob, ' '.join(tmpl)), 'derive': 'derive %s %s %s %s' % (sess, mech, w, ' '.join(tmpl)),
                     'copy': 'copy %s %s %s' % (sess, target, ' '.join(tmpl)), 'setattr': 'setattr %s %s %s' % (sess, target, ' '.join(tmpl)),
                     'destroy': 'destroy %s %s' % (sess, target)}[kind]
